@@ -7,6 +7,7 @@
   state: every finite sequence of operations, any keys, versions and edge kinds.
 -/
 import Gleece.Lemmas.GraphRemove
+import Gleece.Lemmas.GraphEvict
 namespace Gleece.Graph
 
 /-! ### the invariant holds in every reachable state -/
@@ -239,7 +240,39 @@ theorem removeNode_removes {fuel : Nat} {g g' : G} {key : Key} (inv : Inv g)
   let r := removeNode_shrinks fuel g key g' inv h
   ⟨r.2 hex, r.1.sub, r.1.nodes⟩
 
+/-! ### "exactly those dependants left without any remaining dependency": the specification's eviction set is
+    the least fixed point of the eviction rule (`Lemmas/GraphEvict.lean`) — for EVERY abstract graph, with no
+    assumption about duplicates or dangling edges; `|nodes| + 1` rounds always suffice -/
+
+/-- **The eviction set of the plain model is the least set that contains the removed node and is closed under
+    "all my dependencies lead into the set or nowhere, and at least one leads into it"**; and every member other
+    than the removed node is there because the rule demands it. -/
+theorem evictSet_is_least_fixed_point (a : A) (n : Nat) :
+    n ∈ evictSet a n ∧ Stable a (evictSet a n) ∧
+    (∀ s : List Nat, Stable a s → n ∈ s → ∀ x ∈ evictSet a n, x ∈ s) ∧
+    (∀ x ∈ evictSet a n, x = n ∨ (x ∈ a.nodes.map (·.1) ∧ evictable a (evictSet a n) x = true)) :=
+  ⟨mem_evictSet_self a n, evictSet_stable a n, evictSet_least a n, evictSet_members a n⟩
+
+/-- a node that still has a dependency outside the set (on an existing node) is NOT evicted -/
+theorem kept_if_dependency_remains (a : A) (n x : Nat) (hx : x ≠ n) (e : AEdge) (he : e ∈ a.edges) (hs : e.src = x)
+    (hout : e.dst ∉ evictSet a n) (hex : a.has e.dst = true) : x ∉ evictSet a n := by
+  intro hmem
+  rcases evictSet_members a n x hmem with h | ⟨_, hev⟩
+  · exact hx h
+  · unfold evictable at hev
+    rw [Bool.and_eq_true, List.all_eq_true] at hev
+    have := hev.2 e he
+    simp only [hs, decide_true, Bool.not_true, Bool.false_or, Bool.or_eq_true, List.contains_iff_mem, Bool.not_eq_true'] at this
+    rcases this with h1 | h2
+    · exact hout h1
+    · rw [hex] at h2; cases h2
+
 /-! ### non-vacuity -/
+
+/-- the cascade on a concrete graph: 1 → 0, 2 → 1, 3 → {1, 4}; removing 0 takes 1 and 2 with it, 3 stays (it
+    still depends on 4) -/
+example : evictSet { nodes := [(0, 1, "S"), (1, 1, "S"), (2, 1, "S"), (3, 1, "S"), (4, 1, "S")],
+                     edges := [⟨1, "f", 0⟩, ⟨2, "f", 1⟩, ⟨3, "f", 1⟩, ⟨3, "f", 4⟩] } 0 = [0, 1, 2] := by decide
 
 private def exHist : List Op :=
   [.addNode ⟨0, 1⟩ "Alias", .addNode ⟨1, 1⟩ "Alias", .addEdge ⟨0, 1⟩ ⟨1, 1⟩ "ty", .addEdge ⟨0, 1⟩ ⟨1, 1⟩ "ref",
